@@ -332,7 +332,7 @@ def main():
         log("KNOWN-FINDING: property=%s %s" % (pid, k["what"]))
     replay_path = None
     if violations:
-        f = min(violations, key=lambda f: len(f["line"]))
+        f = min(violations, key=lambda f: (".sweep" in f["line"], len(f["line"])))
         replay_path = os.path.join(rdir, "%s_%d.json" % (pid, int(time.time())))
         json.dump(dict(property=pid, kind="oracle", line=f["line"], backend=f.get("backend"), impl_out=f["impl"], why=f["why"],
                        others=len(violations) - 1), open(replay_path, "w"), indent=1)
